@@ -2,6 +2,7 @@ package data
 
 import (
 	"fmt"
+	"math"
 	"reflect"
 	"time"
 	"unicode"
@@ -61,6 +62,11 @@ func NewWith(convert StructOptions, value interface{}) Value {
 	case reflect.Int, reflect.Int8, reflect.Int16, reflect.Int32, reflect.Int64:
 		return Int(v.Int())
 	case reflect.Uint, reflect.Uint8, reflect.Uint16, reflect.Uint32, reflect.Uint64:
+		// Int is signed: a larger unsigned value would wrap around to a negative
+		// one. It becomes the nearest Float instead.
+		if u := v.Uint(); u > math.MaxInt64 {
+			return Float(u)
+		}
 		return Int(v.Uint())
 	case reflect.Float32, reflect.Float64:
 		return Float(v.Float())
